@@ -9,6 +9,8 @@ pub mod c04;
 pub mod c05;
 pub mod c06;
 pub mod c07;
+pub mod c08;
+pub mod c20;
 
 use crate::engine::run::Ctx;
 
@@ -23,6 +25,8 @@ pub fn dispatch(id: &str, ctx: &Ctx) -> Option<i32> {
         "C05" => c05::run(ctx),
         "C06" => c06::run(ctx),
         "C07" => c07::run(ctx),
+        "C08" => c08::run(ctx),
+        "C20" => c20::run(ctx),
         "SELFTEST" => selftest::run(),
         _ => return None,
     })
